@@ -250,6 +250,15 @@ class LoggingDict(dict):
         dict.__setitem__(self, k, v)
         s.ev('ledger_set', self.logname, k)
 
+    def get(self, k, default=None):
+        s = detsched.CURRENT
+        if s is None or not s.managed():
+            return dict.get(self, k, default)
+        s.yield_point('dict.get')
+        found = dict.__contains__(self, k)
+        s.ev('ledger_get', self.logname, (k, found))
+        return dict.get(self, k, default)
+
     def pop(self, k, *default):
         s = detsched.CURRENT
         if s is None or not s.managed():
